@@ -20,7 +20,7 @@ fixed).  With the repair the full statement holds (`stale_push_refused`, `stale_
 `stale_push_refused_partial` is the part that holds for both values of the switch.  The no-row half
 (`stale_push_no_rows`) holds for push-only syncs under both values too.
 -/
-import YorkieModel.Lemmas.ServerCompactDelivery
+import YorkieModel.Lemmas.ServerSeqC
 namespace Yorkie.Props.C10
 open Yorkie Yorkie.Server
 
@@ -416,6 +416,61 @@ theorem delivery_exact_across_compaction (sem : ContentSem α) (cfg : Config) (e
   rw [← this]
   exact v.exact
 
+/-- C04's clause 3b (never an echo of its own change) for schedules with compactions and stale
+clients: from any state of such a schedule, every row in a successful response to a well-behaved
+request whose actor is the requester itself was written by an EARLIER attachment generation of that
+client.  Generation-aware restatement of the invariant behind it (`GInvC`): the compacted change is
+authored by the initial actor (`SemInitialActor`, true of the code: `document.New` has
+`InitialActorID`), which is no client – `hok`: no Attach is made under its number, `hcn`: the
+requester is not it. -/
+theorem no_echo_across_compaction (sem : ContentSem α) (hsem : SemInitialActor sem) (cfg : Config)
+    (evs : List EvC) (hok : attachersOk evs) (s : Server) (g : Ghost)
+    (h : wbRunC sem (Server.init cfg) Ghost.init evs = some (s, g))
+    (req : Request) (hwb : wbReq s g req = true) (r : Resp) (hout : (step s req).2 = .ok r)
+    (c : ClientId) (d : DocId) (hcn : c ≠ initialActorNo)
+    (hreq : (∃ p po nogc, req = .pushpull c d p po nogc) ∨ (∃ p, req = .detach c d p) ∨ (∃ p, req = .remove c d p) ∨
+            (∃ key p dp nogc, req = .attach c key p dp nogc ∧ d = (findOrCreateDoc s key dp).2))
+    (hdp : ∀ doc', (step s req).1.findDoc d = some doc' → doc'.disablePresence = false) :
+    ∃ e', entryOf (step s req).1 c d = some e' ∧ ∀ row ∈ r.changes, row.actor = c → row.gen < e'.gen := by
+  have inv := wbRunC_inv sem (DInv.init cfg) evs h
+  have hG := wbRunC_ginvC sem hsem (DInv.init cfg) (GInvC.init cfg) evs hok h
+  exact no_echo_stateC inv.wf hG req hwb r hout c d hcn hreq hdp
+
+/-- C04's clause 2 (each client's changes appear once and in the order the client made them) for
+schedules with compactions and stale clients, in the form that survives a compaction: at every point,
+in every document with presence enabled, the rows of one client written by one attachment generation
+carry CONSECUTIVE client sequences in log order – no gap, no duplicate, no reordering –, and for an
+open attachment they are the LAST ones up to the client sequence the server has stored for it.
+(A compaction folds the earlier rows into the compacted change, so "starting at 1" is a statement about
+the log between two compactions – C04's `per_actor_clientSeq_ordered`; a client of the old generation
+keeps its stored client sequence and never adds a row again, `stale_push_no_rows`.) -/
+theorem per_actor_clientSeq_consecutive_across_compaction (sem : ContentSem α) (hsem : SemInitialActor sem)
+    (cfg : Config) (evs : List EvC) (hok : attachersOk evs) (s : Server) (g : Ghost)
+    (h : wbRunC sem (Server.init cfg) Ghost.init evs = some (s, g))
+    (c : ClientId) (hcn : c ≠ initialActorNo) (d : DocId) (doc : Doc) (hd : s.findDoc d = some doc)
+    (hdp : doc.disablePresence = false) :
+    (∀ gen, ∃ a k, (doc.log.filter (fun r => r.actor == c && r.gen == gen)).map (·.clientSeq) = List.range' a k) ∧
+    (∀ cd, entryOf s c d = some cd → (cd.status = .attached ∨ cd.status = .attaching) →
+      ∃ k, k ≤ cd.clientSeq ∧
+        (doc.log.filter (fun r => r.actor == c && r.gen == cd.gen)).map (·.clientSeq) =
+          List.range' (cd.clientSeq + 1 - k) k) := by
+  have inv := wbRunC_inv sem (DInv.init cfg) evs h
+  have hG := wbRunC_ginvC sem hsem (DInv.init cfg) (GInvC.init cfg) evs hok h
+  have hS := wbRunC_sinvC sem hsem (DInv.init cfg) (GInvC.init cfg) (SInvC.init cfg) evs hok h
+  have hdpOf : dpOf s d = false := by simp [dpOf, hd, hdp]
+  have hlog : storedLog s d = doc.log := storedLog_findDoc hd
+  constructor
+  · intro gen
+    obtain ⟨a, k, hk⟩ := hS.runs c d gen hcn hdpOf
+    refine ⟨a, k, ?_⟩
+    simp only [csOf, ownRows, hlog] at hk
+    exact hk
+  · intro cd hcd hst
+    obtain ⟨k, hk, hrows⟩ := hS.cur c d cd hcn hdpOf hcd (by rcases hst with h | h <;> simp [isOpenSt, h])
+    refine ⟨k, hk, ?_⟩
+    simp only [csOf, ownRows, hlog] at hrows
+    exact hrows
+
 /-! ## non-vacuity and the scenario of the property text -/
 
 /-- the guard's three situations exist: held + normal ⇒ refused; held + forced ⇒ ok; nobody holds + normal ⇒ ok -/
@@ -476,5 +531,12 @@ example :
     ((wbRunC tagSem (Server.init {}) Ghost.init sched).map (fun p => ((p.2 1 0).cp.serverSeq, (p.2 1 0).applied.map (·.actor),
         (storedLog p.1 0).map (·.actor), epochOr0 p.1 0))) = some (3, [initialActorNo], [initialActorNo, 1, 1], 1) := by
   decide
+
+/-- the side conditions of the two theorems above are met by the driver's content semantics and by the
+schedule of the example above (its attaches are made by clients 0 and 1) -/
+example : SemInitialActor tagSem ∧
+    attachersOk [.wb (.attach 0 7 { cp := ⟨0, 0⟩, changes := [], vv := [] } false false) false, .compact 0 true,
+      .wb (.attach 1 7 { cp := ⟨0, 0⟩, changes := [], vv := [] } false false) false] :=
+  ⟨tagSem_initialActor, by simp [attachersOk, attacherOk, initialActorNo]⟩
 
 end Yorkie.Props.C10
